@@ -1,5 +1,5 @@
 CONSTANTS
-  LEN = 1
+  LEN = 3
   DEVS = {}
 INIT MCInit
 NEXT MCNext
